@@ -1,6 +1,7 @@
 package input
 
 import (
+	"bytes"
 	"fmt"
 	"strings"
 	"sync"
@@ -112,14 +113,62 @@ func encodeText(cs *charset, text []rune) []byte {
 // simulated time (less than the escape timeout) pass between reads; -1 / -n
 // = all reads back to back while the application is not polling (n ms pass
 // before it polls again).
-func runC11(cfg hx.Config, ch *simrt.Chooser, cs *charset, text []rune, paste bool, focus int, cuts []int, delivery int) (*hx.Failure, error) {
+// cycles: Suspend/Resume cycles the application goes through (after enabling
+// bracketed paste, if it does) before the text arrives.
+func runC11(cfg hx.Config, ch *simrt.Chooser, cs *charset, text []rune, paste bool, focus int, cuts []int, delivery int, cycles int) (*hx.Failure, error) {
 	cfg.Locale = "en_US." + cs.Name
 	w, err := newIW(cfg, ch)
 	if err != nil {
 		return nil, err
 	}
 	cp := capsOf(w.Ti)
-	w.S.Note(hx.Fingerprint(cfg, cs.Name, text, paste, focus, cuts, delivery))
+	w.S.Note(hx.Fingerprint(cfg, cs.Name, text, paste, focus, cuts, delivery, cycles))
+	// The terminal side: it brackets a paste only while the application has
+	// bracketed-paste mode switched on (the last h/l it was sent decides).
+	pasteMode := false
+	onSeq, offSeq := w.Ti.EnablePaste, w.Ti.DisablePaste
+	if onSeq == "" {
+		onSeq, offSeq = "\x1b[?2004h", "\x1b[?2004l"
+	}
+	var wrote []byte
+	w.Tty.OnWrite = func(g string, b []byte) {
+		wrote = append(wrote, b...)
+		if len(wrote) > 4096 {
+			wrote = wrote[len(wrote)-256:]
+		}
+		for len(wrote) > 0 {
+			i, j := bytes.LastIndex(wrote, []byte(onSeq)), bytes.LastIndex(wrote, []byte(offSeq))
+			if i < 0 && j < 0 {
+				break
+			}
+			pasteMode = i > j
+			if i > j {
+				wrote = wrote[i+len(onSeq):]
+			} else {
+				wrote = wrote[j+len(offSeq):]
+			}
+		}
+	}
+	if paste || cycles > 0 {
+		var srErr error
+		w.runTo(w.S.Spawn("app-modes", func() {
+			if paste {
+				w.Scr.EnablePaste()
+			}
+			for i := 0; i < cycles; i++ {
+				_ = w.Scr.Suspend()
+				if err := w.Scr.Resume(); err != nil {
+					srErr = err
+				}
+			}
+		}))
+		if srErr != nil {
+			return &hx.Failure{Tag: "C11/paste", Msg: "Resume failed: " + srErr.Error()}, w.Close()
+		}
+		if cycles > 0 {
+			w.Tty.Faults.Inc("suspend_resume")
+		}
+	}
 	var in []byte
 	var want []string
 	if focus == 1 {
@@ -127,16 +176,22 @@ func runC11(cfg hx.Config, ch *simrt.Chooser, cs *charset, text []rune, paste bo
 		want = append(want, "focus:true")
 	}
 	if paste && cp.paste {
-		in = append(in, cp.pasteStart...)
+		// the application has enabled bracketed paste on a terminal that has
+		// it: a paste must arrive bracketed
 		want = append(want, "paste:true")
+	}
+	if pasteMode && cp.paste {
+		in = append(in, cp.pasteStart...)
 	}
 	tb := encodeText(cs, text)
 	in = append(in, tb...)
 	for _, r := range text {
 		want = append(want, runeDesc(r, 0))
 	}
-	if paste && cp.paste {
+	if pasteMode && cp.paste {
 		in = append(in, cp.pasteEnd...)
+	}
+	if paste && cp.paste {
 		want = append(want, "paste:false")
 	}
 	if focus == 2 {
@@ -258,7 +313,7 @@ func TestC11(t *testing.T) {
 					}
 				}
 				hx.Arm("C11 enum")
-				f, err := runC11(hx.Config{Term: "xterm-256color", W: 80, H: 24, GapScale: 1, AltScreen: true}, &simrt.Chooser{}, cs, text, idx%5 == 0, 0, cuts, 0)
+				f, err := runC11(hx.Config{Term: "xterm-256color", W: 80, H: 24, GapScale: 1, AltScreen: true}, &simrt.Chooser{}, cs, text, idx%5 == 0, 0, cuts, 0, 0)
 				hx.Disarm()
 				if err != nil {
 					t.Fatalf("HARNESS: %v", err)
@@ -313,10 +368,18 @@ func TestC11(t *testing.T) {
 		for i := 0; i < nc; i++ {
 			cuts = append(cuts, rapid.IntRange(1, 80).Draw(rt, "cut"))
 		}
+		if delivery < 0 && rapid.Bool().Draw(rt, "bytewise") {
+			// every byte its own read: far more reads than the chunk queue holds
+			cuts = cuts[:0]
+			for i := 1; i < 200; i++ {
+				cuts = append(cuts, i)
+			}
+		}
 		ch := hx.DrawChooser(rt, 40)
 		hx.Arm("C11")
 		defer hx.Disarm()
-		f, err := runC11(cfg, ch, cs, text, paste, focus, cuts, delivery)
+		cycles := rapid.SampledFrom([]int{0, 0, 0, 1, 2}).Draw(rt, "cycles")
+		f, err := runC11(cfg, ch, cs, text, paste, focus, cuts, delivery, cycles)
 		if err != nil {
 			rt.Fatalf("HARNESS: %v", err)
 		}
